@@ -39,6 +39,7 @@
 
 #include "alg_sig.h"
 #include "erasurecode_log.h"
+#include "erasurecode_verif.h"
 
 /* =~=*=~==~=*=~==~=*=~= Supported EC backends =~=*=~==~=*=~==~=*=~==~=*=~== */
 
@@ -89,7 +90,9 @@ int next_backend_desc = 0;
 ec_backend_t liberasurecode_backend_instance_get_by_desc(int desc)
 {
     struct ec_backend *b = NULL;
+    VERIF_ACCESS_R(&active_instances, "registry.list:lookup");
     SLIST_FOREACH(b, &active_instances, link) {
+        VERIF_ACCESS_R(&b->idesc, "instance.idesc:lookup");
         if (b->idesc == desc)
             break;
     }
@@ -105,6 +108,7 @@ ec_backend_t liberasurecode_backend_instance_get_by_desc(int desc)
 int liberasurecode_backend_alloc_desc(void)
 {
     for (;;) {
+        VERIF_ACCESS_W(&next_backend_desc, "registry.counter:alloc_desc");
         /* wrap explicitly: incrementing INT_MAX is undefined behaviour */
         if (next_backend_desc < 0 || next_backend_desc == INT_MAX)
             next_backend_desc = 0;
@@ -128,10 +132,12 @@ int liberasurecode_backend_instance_register(ec_backend_t instance)
 
     rc = rwlock_wrlock(&active_instances_rwlock);
     if (rc == 0) {
+        VERIF_ACCESS_W(&active_instances, "registry.list:register");
         SLIST_INSERT_HEAD(&active_instances, instance, link);
         desc = liberasurecode_backend_alloc_desc();
         if (desc <= 0)
             goto register_out;
+        VERIF_ACCESS_W(&instance->idesc, "instance.idesc:register");
         instance->idesc = desc;
     } else {
         goto exit;
@@ -154,6 +160,7 @@ int liberasurecode_backend_instance_unregister(ec_backend_t instance)
 
     rc = rwlock_wrlock(&active_instances_rwlock);
     if (rc == 0) {
+        VERIF_ACCESS_W(&active_instances, "registry.list:unregister");
         SLIST_REMOVE(&active_instances, instance, ec_backend, link);
     }  else {
         goto exit;
@@ -315,7 +322,9 @@ int liberasurecode_instance_create(const ec_backend_id_t id,
     }
 
     /* Register instance and return a descriptor/instance id */
+    VERIF_YIELD("instance_create:before-register");
     instance->idesc = liberasurecode_backend_instance_register(instance);
+    VERIF_ACCESS_W(&instance->idesc, "instance.idesc:instance_create");
 
     return instance->idesc;
 }
@@ -335,6 +344,7 @@ int liberasurecode_instance_destroy(int desc)
         return -EBACKENDNOTAVAIL;
 
     /* Call private exit() for the backend */
+    VERIF_YIELD("instance_destroy:after-lookup");
     instance->common.ops->exit(instance->desc.backend_desc);
 
     /* dlclose() backend library */
@@ -343,6 +353,7 @@ int liberasurecode_instance_destroy(int desc)
     /* Remove instance from registry */
     rc = liberasurecode_backend_instance_unregister(instance);
     if (rc == 0) {
+        VERIF_FREE(instance, "instance:free");
         free(instance);
     }
 
